@@ -90,6 +90,12 @@ class Documents(HypPart):
     def strategy(self, tier):
         return hex_tapes(20, 500 if tier == 'quick' else 1500).map(lambda h: {'tape': h[:-2], 'opts': {}, 'nw': int(h[-2:], 16) % 3 == 0})
 
+    def describe(self, case):
+        opts = {'exclude': c03.Documents().excludes() + RT_EXCLUDES, 'refs': bool(int(case['tape'][:2] or '0', 16) % 4 == 0)}
+        if self.canonical:
+            opts['canonical'] = True
+        return c03.build(case, opts)[1]
+
     def check(self, case):
         opts = {'exclude': c03.Documents().excludes() + RT_EXCLUDES, 'refs': bool(int(case['tape'][:2] or '0', 16) % 4 == 0)}
         if self.canonical:
